@@ -257,7 +257,10 @@ func VForkPartition() {
 
 // ---------------------------------------------------------------------------
 // ForEach (job parameter void=0) / Void (void=1): no values, the signal channel
-// is closed once every worker has finished.
+// is closed once every worker has finished. void=2 / void=3: ForEach with a
+// function that fails on the (uninterpreted) set E, lifted with Try / Lift: like
+// the sequential pipe.ForEach the stage ignores the outcome of the function, so
+// every element is still applied exactly once.
 
 func VForkForEach() {
 	par := vrt.Param("par", 2)
@@ -269,6 +272,19 @@ func VForkForEach() {
 	var dn <-chan struct{}
 	if vrt.Param("void", 0) == 1 {
 		dn = Void(ctx, par, in)
+	} else if vrt.Param("void", 0) >= 2 {
+		g := func(x int) (int, error) {
+			v9mark("foreach.call", &xs, &yes, &called, x)
+			if v9E(x) {
+				return 0, v9err{x}
+			}
+			return x, nil
+		}
+		if vrt.Param("void", 0) == 2 {
+			dn = ForEach(ctx, par, in, Try(g))
+		} else {
+			dn = ForEach(ctx, par, in, Lift(g))
+		}
 	} else {
 		dn = ForEach(ctx, par, in, Pure(func(x int) int {
 			v9mark("foreach.call", &xs, &yes, &called, x)
